@@ -10,8 +10,8 @@
 //!
 //! usage: h_justice run <seed:u64> <n_scenarios> <flags>
 //!        h_justice replay '{"seed":..,"k":..,"flags":".."}'
-//! flags: comma list of reload,styles,late,fees | all | none; plus `rtquirk` (never implied by `all`): do not
-//!        steer around two artefacts of the test-only monitor round-trip assertion (see `run_scenario`);
+//! flags: comma list of reload,styles,late,fees,reorg | all | none; plus `rtquirk` (never implied by `all`): do
+//!        not steer around two artefacts of the test-only monitor round-trip assertion (see `run_scenario`);
 //!        with it some scenarios end in `"panic":"... assertion failed: new_monitor == *monitor"`.
 //! stdout: one line `R {json}` per scenario (TestLogger floods stdout with everything else).
 //! stderr: histogram at the end.
@@ -72,6 +72,64 @@
 //!    affords) (`below_estimate`); tolerance 2% + 3 sat/kw for weight / rounding differences.
 //!  * `Event::BumpTransaction` of B (its own commitment / HTLC claims on anchor-type channels) are
 //!    handed to its `bump_tx_handler` (`bump_events` per block).
+//!  * flag `reorg`: two thirds of the scenarios carry a chain reorganisation plan (at most one reorg per
+//!    scenario), all others run straight. `reorg` = null | {
+//!      `target`: commitment (the revoked commitment) | justice (the first transaction of B spending an
+//!         output of the revoked commitment that gets mined) | cheater_htlc (the first of A's second-stage
+//!         transactions that gets mined) | second_stage_justice (the first transaction of B spending an
+//!         output of one of A's confirmed second-stage transactions); the last two fall back to justice
+//!         when A has no second-stage transaction, or none confirmed and none is left to confirm (then
+//!         the next justice transaction mined counts). `target_drawn` is the value before the fall-back;
+//!      `k`: blocks connected after the block that confirmed the target before the reorg starts (ordinary
+//!         driver steps; steps of several empty blocks are split so that the count is exact);
+//!      `fork_rel`: the fork point (last block kept) is at `tracked_conf_height` + fork_rel, in -1..=1,
+//!         lowered to k-1 where needed (`fork_rel_drawn` = the draw);
+//!      `api`: how B hears of the disconnect: listen_each (`Listen::blocks_disconnected` once per block,
+//!         ConnectStyle FullBlockViaListen) | listen_once (one call with the fork point,
+//!         FullBlockDisconnectionsSkippingViaListen) | confirm_best_block (`best_block_updated` with each
+//!         previous header, BestBlockFirst) | confirm_unconfirmed (`transaction_unconfirmed` for every
+//!         transaction of the disconnected blocks only, TransactionsFirstReorgsOnlyTip); the style is
+//!         switched for the disconnect (`disconnect_style`) and B's own (`style_before`) is back in
+//!         force afterwards. One exception, `regrow_style`: after confirm_unconfirmed neither B's monitors
+//!         nor its manager have heard that the tip went down, so a style that delivers transactions before
+//!         the best block would make B sign claims with its old height as locktime (which the test
+//!         broadcaster refuses below that height), and the Listen styles would trip the manager's
+//!         connected-in-order assertion: there the replacement blocks are connected with BestBlockFirst
+//!         unless `style_before` is one of the BestBlockFirst* styles itself;
+//!      `regrow`: same_txs_same_heights (every transaction of a disconnected block is mined again at its
+//!         old height, plus one empty block) | shifted (`shift` blocks later: 1, or 2 if the revoked
+//!         commitment would otherwise land on the expiry of an HTLC B offered, see artefact (1) in
+//!         `run_scenario`) | empty_then_driver (replacement blocks empty up to the old tip + 1, except that
+//!         a disconnected revoked commitment is back in the first one; A's disconnected second-stage
+//!         transactions return to the set A still wants to confirm, B's to its pending pool, and the
+//!         driver goes on as usual). The first replacement block has another header nonce, so every
+//!         replacement block hash differs from the disconnected one at that height;
+//!      `done`: the reorg happened (false: the target never confirmed); `tracked_txid`,
+//!      `tracked_conf_height`, `tip_before`, `fork_point_height`, `disconnected_heights`,
+//!      `disconnected_txids` (block order, test padding left out), `replacement_heights` }.
+//!    `blocks[]` gets one entry with phase `reorg_disconnect` (`n` = number of blocks DISCONNECTED, `h` =
+//!    the fork point; `bcast`, `events`, `spendable`, `balances` as seen right after the disconnect) and
+//!    one entry with phase `reorg_regrow` per replacement block. Afterwards the driver continues (drive /
+//!    final / ...); a reorg during the burial sends it through the drive loop once more, and the run
+//!    ends at least ANTI_REORG_DELAY + the largest CSV of a confirmed input + 1 blocks after the last
+//!    confirmation. Everything in the output that describes the chain (`unspent`, `owed_unspent`,
+//!    `conf_height`, `pos_in_block`, ...) refers to the FINAL chain. B re-issuing claims after the
+//!    reorg is expected: the per-input-set fee memory behind `fee_violations` forgets every input set
+//!    that shares an outpoint with, or spends an output of, a disconnected transaction (again when that
+//!    transaction is mined anew: B's claims on its outputs start afresh then).
+//!  * `spendable` (cumulative, in order of appearance, never deduplicated): every descriptor of every
+//!    `Event::SpendableOutputs` with `outpoint`, `value`, `kind`, and `h` = B's height when it was seen.
+//!  * `final_chain` (flag `reorg`, else null): {`tip`, `confirmed`: [{txid, height, mine: A|B|other}]} = every
+//!    transaction in B's final chain from the height of the revoked commitment's first confirmation on
+//!    (the in/output-less padding transaction of the test utilities left out).
+//!  * `twin` (flag `reorg`, else null; also for scenarios without a plan): the no-reorg twin. B's monitor as
+//!    serialized just before the revoked commitment was first mined is re-read at the very end and fed
+//!    B's final chain straight (`block_connected`, whole blocks, from `from` + 1 to `tip`, a broadcaster
+//!    that drops everything, B's fee estimator). {`from`, `tip`, `spendable`: as the live list with the
+//!    twin's height, `balances`: sorted Debug strings at the tip}. On a healthy tree the outpoints in
+//!    `spendable` of the live run and of the twin are the same multiset (stderr: `twin_mismatch`) and no
+//!    outpoint occurs twice (`spendable_dup`). A panic inside the twin is reported with
+//!    `[while: twin: ...]`.
 use std::cell::RefCell;
 use std::collections::{BTreeMap, HashMap, HashSet};
 use std::mem::ManuallyDrop;
@@ -87,7 +145,7 @@ use bitcoin::transaction::Version;
 use bitcoin::{Amount, OutPoint, ScriptBuf, Sequence, Transaction, TxIn, TxOut, Txid, Witness};
 
 use lightning::chain::chaininterface::{BroadcasterInterface, ConfirmationTarget, FeeEstimator, TransactionType};
-use lightning::chain::channelmonitor::ChannelMonitor;
+use lightning::chain::channelmonitor::{ChannelMonitor, ANTI_REORG_DELAY};
 use lightning::chain::{BlockLocator, ChannelMonitorUpdateStatus, Listen};
 use lightning::events::bump_transaction::BumpTransactionEvent;
 use lightning::events::Event;
@@ -286,6 +344,12 @@ struct Rec {
 	claim_stats: Vec<(u64, u64, u64)>,
 	bump_events_handled: u64,
 	owed_unspent: u64,
+	reorg_json: Option<String>,
+	/// (target, api, fork_rel, regrow) of a reorg that was carried out
+	reorg_done: Option<(String, String, i32, String)>,
+	final_chain: Option<String>,
+	twin: Option<String>,
+	twin_outpoints: Option<Vec<String>>,
 }
 
 #[derive(Clone)]
@@ -295,12 +359,14 @@ struct Flags {
 	styles: bool,
 	late: bool,
 	fees: bool,
+	reorg: bool,
 	/// NOT part of `all`: do not steer around the monitor round-trip quirk (see `run_scenario`)
 	rtquirk: bool,
 }
 impl Flags {
 	fn parse(s: &str) -> Flags {
-		let mut f = Flags { raw: s.to_string(), reload: false, styles: false, late: false, fees: false, rtquirk: false };
+		let mut f =
+			Flags { raw: s.to_string(), reload: false, styles: false, late: false, fees: false, reorg: false, rtquirk: false };
 		for t in s.split(',') {
 			match t.trim() {
 				"all" => {
@@ -308,7 +374,9 @@ impl Flags {
 					f.styles = true;
 					f.late = true;
 					f.fees = true;
+					f.reorg = true;
 				},
+				"reorg" => f.reorg = true,
 				"reload" => f.reload = true,
 				"styles" => f.styles = true,
 				"late" => f.late = true,
@@ -889,6 +957,82 @@ struct Chain {
 	held_back: Vec<String>,
 	/// B's justice claims by input set: (last feerate, re-issues, first feerate, highest feerate)
 	claims: HashMap<String, (u64, u64, u64, u64)>,
+	/// transactions a reorg took out of the chain and nothing has mined again yet
+	unmined: HashSet<Txid>,
+	/// claims forgotten at a reorg (re-issues, first feerate, highest feerate), for the statistics
+	claims_retired: Vec<(u64, u64, u64)>,
+	/// everything B ever broadcast, in order of arrival (`b_pending` is rebuilt from it after a reorg)
+	b_all: Vec<Transaction>,
+	/// A's second-stage transactions, all of them
+	a_all: Vec<Transaction>,
+	/// the HTLCs of the revoked commitment as B's monitor knows them: (offered, cltv_expiry, vout)
+	htlcs: Vec<(bool, u32, u32)>,
+	pinnable: u32,
+	reorg: Option<Reorg>,
+}
+
+/// The chain reorganisation of a scenario: plan, progress and what was observed.
+struct Reorg {
+	target: &'static str,
+	target_drawn: &'static str,
+	k: u32,
+	fork_rel_drawn: i32,
+	api: &'static str,
+	regrow: &'static str,
+	/// the transaction the plan hangs on and the height it confirmed at
+	tracked: Option<(Txid, u32)>,
+	started: bool,
+	done: bool,
+	fork_rel: i32,
+	tip_before: u32,
+	fork_h: u32,
+	shift: u32,
+	disc_heights: Vec<u32>,
+	disc_txids: Vec<String>,
+	repl_heights: Vec<u32>,
+	style_before: String,
+	disconnect_style: String,
+	regrow_style: String,
+}
+
+impl Reorg {
+	fn json(&self) -> String {
+		let nums = |v: &Vec<u32>| v.iter().map(|x| x.to_string()).collect::<Vec<_>>().join(",");
+		let opt = |on: bool, x: String| if on { x } else { "null".to_string() };
+		format!(
+			"{{\"target\":\"{}\",\"target_drawn\":\"{}\",\"k\":{},\"fork_rel\":{},\"fork_rel_drawn\":{},\"api\":\"{}\",\"regrow\":\"{}\",\"done\":{},\"tracked_txid\":{},\"tracked_conf_height\":{},\"tip_before\":{},\"fork_point_height\":{},\"shift\":{},\"disconnected_heights\":[{}],\"disconnected_txids\":{},\"replacement_heights\":[{}],\"style_before\":{},\"disconnect_style\":{},\"regrow_style\":{}}}",
+			self.target,
+			self.target_drawn,
+			self.k,
+			opt(self.started, self.fork_rel.to_string()),
+			self.fork_rel_drawn,
+			self.api,
+			self.regrow,
+			self.done,
+			match &self.tracked {
+				Some((t, _)) => format!("\"{}\"", t),
+				None => "null".to_string(),
+			},
+			match &self.tracked {
+				Some((_, h)) => h.to_string(),
+				None => "null".to_string(),
+			},
+			opt(self.started, self.tip_before.to_string()),
+			opt(self.started, self.fork_h.to_string()),
+			opt(self.started && self.regrow == "shifted", self.shift.to_string()),
+			nums(&self.disc_heights),
+			jstrs(&self.disc_txids),
+			nums(&self.repl_heights),
+			opt(self.started, js(&self.style_before)),
+			opt(self.started, js(&self.disconnect_style)),
+			opt(self.started, js(&self.regrow_style)),
+		)
+	}
+}
+
+/// The in/output-less transaction the test utilities put in front of every mined block.
+fn is_padding(t: &Transaction) -> bool {
+	t.input.is_empty() && t.output.is_empty()
 }
 
 impl Chain {
@@ -1032,6 +1176,10 @@ impl Chain {
 	fn mark_mined(&mut self, txs: &[Transaction], h: u32) {
 		for (p, t) in txs.iter().enumerate() {
 			let txid = t.compute_txid();
+			if self.unmined.remove(&txid) {
+				// back after a reorg: B's claims on its outputs start afresh
+				self.forget_claims(&HashSet::new(), &[txid]);
+			}
 			self.conf.insert(txid, h);
 			self.pos.insert(txid, p);
 			for i in t.input.iter() {
@@ -1042,6 +1190,137 @@ impl Chain {
 			}
 		}
 		self.prune();
+	}
+
+	/// The justice package of round-trip artefact (2) (see `run_scenario`) if the revoked commitment
+	/// confirms at `h1`: its inputs in package order and the cluster of the input all others join.
+	fn g_for(&self, h1: u32) -> (Vec<(u32, bool)>, bool) {
+		let mut g: Vec<(u32, bool)> = self
+			.htlcs
+			.iter()
+			.filter(|(offered, cltv, _)| !*offered || *cltv <= h1 + self.pinnable)
+			.map(|(offered, _, vout)| (*vout, *offered))
+			.collect();
+		g.sort();
+		if g.iter().any(|(_, o)| *o) && g.iter().any(|(_, o)| !*o) {
+			let mut rest: Vec<(u32, bool)> = g[1..].to_vec();
+			rest.reverse();
+			let mut inputs = vec![g[0]];
+			inputs.extend(rest);
+			(inputs, g[0].1)
+		} else {
+			(Vec::new(), false)
+		}
+	}
+
+	/// Re-derives the prediction for artefact (2) from the chain as it is now.
+	fn reset_g(&mut self) {
+		if !self.steer {
+			return;
+		}
+		match self.conf.get(&self.commit_txid).copied() {
+			Some(h) => {
+				let (mut g, c) = self.g_for(h);
+				let commit = self.commit_txid;
+				let spent = &self.spent;
+				g.retain(|(v, _)| !spent.contains_key(&OutPoint { txid: commit, vout: *v }));
+				self.g_inputs = g;
+				self.g_cluster_offered = c;
+			},
+			None => {
+				self.g_inputs = Vec::new();
+				self.g_cluster_offered = false;
+			},
+		}
+	}
+
+	/// The transactions of disconnected blocks leave the simulated chain. The fee memory forgets every
+	/// claim that shares an outpoint with one of them or spends one of their outputs.
+	fn unmine(&mut self, txs: &[Transaction]) {
+		let ids: HashSet<Txid> = txs.iter().map(|t| t.compute_txid()).collect();
+		let mut touched: HashSet<String> = HashSet::new();
+		for t in txs.iter() {
+			let txid = t.compute_txid();
+			self.conf.remove(&txid);
+			self.pos.remove(&txid);
+			for i in t.input.iter() {
+				if self.spent.get(&i.previous_output) == Some(&txid) {
+					self.spent.remove(&i.previous_output);
+				}
+				touched.insert(format!("{}:{}", i.previous_output.txid, i.previous_output.vout));
+			}
+		}
+		let ids: Vec<Txid> = ids.into_iter().collect();
+		self.forget_claims(&touched, &ids);
+		self.unmined.extend(ids);
+		self.reset_g();
+	}
+
+	/// Drops the fee memory of every input set holding one of the outpoints `ops` (`txid:vout`) or an
+	/// output of one of `parents`.
+	fn forget_claims(&mut self, ops: &HashSet<String>, parents: &[Txid]) {
+		let prefixes: Vec<String> = parents.iter().map(|t| format!("{}:", t)).collect();
+		let stale: Vec<String> = self
+			.claims
+			.keys()
+			.filter(|k| k.split(',').any(|op| ops.contains(op) || prefixes.iter().any(|p| op.starts_with(p.as_str()))))
+			.cloned()
+			.collect();
+		for k in stale {
+			if let Some(c) = self.claims.remove(&k) {
+				self.claims_retired.push((c.1, c.2, c.3));
+			}
+		}
+	}
+
+	/// B's pending pool after a reorg: everything it ever broadcast that is not confirmed and can still
+	/// confirm, in order of arrival.
+	fn rebuild_b_pending(&mut self) {
+		let conf = &self.conf;
+		self.b_pending = self.b_all.iter().filter(|t| !conf.contains_key(&t.compute_txid())).cloned().collect();
+		self.prune();
+	}
+
+	/// Blocks still to connect before the planned reorg is due (None: no reorg is waiting for blocks).
+	fn reorg_due_in(&self, tip: u32) -> Option<u32> {
+		match &self.reorg {
+			Some(r) if !r.started => r.tracked.map(|(_, h)| (h + r.k).saturating_sub(tip)),
+			_ => None,
+		}
+	}
+
+	/// Looks for the transaction the reorg plan hangs on among the transactions just mined at `h`.
+	fn track(&mut self, mined: &[Transaction], h: u32) -> bool {
+		let mut r = match self.reorg.take() {
+			Some(r) => r,
+			None => return false,
+		};
+		let mut changed = false;
+		if !r.started && r.tracked.is_none() {
+			let s_ids: HashSet<Txid> = self.a_all.iter().map(|t| t.compute_txid()).collect();
+			if r.target == "cheater_htlc" || r.target == "second_stage_justice" {
+				let s_conf = s_ids.iter().any(|t| self.conf.contains_key(t));
+				if !s_conf && self.a_remaining.is_empty() {
+					r.target = "justice";
+					changed = true;
+				}
+			}
+			let hit = mined.iter().find(|t| {
+				let txid = t.compute_txid();
+				match r.target {
+					"commitment" => txid == self.commit_txid,
+					"justice" => self.b_seen.contains(&txid) && t.input.iter().any(|i| i.previous_output.txid == self.commit_txid),
+					"cheater_htlc" => s_ids.contains(&txid),
+					_ => self.b_seen.contains(&txid) && t.input.iter().any(|i| s_ids.contains(&i.previous_output.txid)),
+				}
+			});
+			if let Some(t) = hit {
+				r.tracked = Some((t.compute_txid(), h));
+				changed = true;
+			}
+		}
+		self.reorg = Some(r);
+		changed
 	}
 }
 
@@ -1242,6 +1521,7 @@ fn after_block(w: &mut World, chain: &mut Chain, rec: &Rc<RefCell<Rec>>, phase: 
 	// "later" within one drain = higher fee
 	fresh.sort_by(|x, y| (x.0, &x.1).cmp(&(y.0, &y.1)));
 	for (_, _, t) in fresh {
+		chain.b_all.push(t.clone());
 		chain.b_pending.push(t);
 	}
 	chain.prune();
@@ -1278,12 +1558,199 @@ fn mine(w: &mut World, chain: &mut Chain, rec: &Rc<RefCell<Rec>>, phase: &str, t
 	let h = w.nodes[1].best_block_info().1;
 	chain.mark_mined(&txs, h);
 	after_block(w, chain, rec, phase, 1, &txs);
+	if chain.reorg.is_some() {
+		if chain.track(&txs, h) {
+			rec.borrow_mut().reorg_json = chain.reorg.as_ref().map(|r| r.json());
+		}
+		maybe_reorg(w, chain, rec);
+	}
 }
 
 fn empty_blocks(w: &mut World, chain: &mut Chain, rec: &Rc<RefCell<Rec>>, phase: &str, n: u32) {
-	rec.borrow_mut().doing = format!("{}: {} empty blocks from B height {}", phase, n, w.nodes[1].best_block_info().1);
-	connect_blocks(&w.nodes[1], n);
-	after_block(w, chain, rec, phase, n, &[]);
+	let mut left = n;
+	loop {
+		let tip = w.nodes[1].best_block_info().1;
+		// a step of several blocks stops where a planned reorg is due
+		let chunk = match chain.reorg_due_in(tip) {
+			Some(d) if d >= 1 && d < left => d,
+			_ => left,
+		};
+		rec.borrow_mut().doing = format!("{}: {} empty blocks from B height {}", phase, chunk, tip);
+		connect_blocks(&w.nodes[1], chunk);
+		after_block(w, chain, rec, phase, chunk, &[]);
+		left -= chunk;
+		if chain.reorg.is_some() {
+			maybe_reorg(w, chain, rec);
+		}
+		if left == 0 {
+			break;
+		}
+	}
+}
+
+// ------------------------------------------------------------------------------------------
+// chain reorganisation
+// ------------------------------------------------------------------------------------------
+fn maybe_reorg(w: &mut World, chain: &mut Chain, rec: &Rc<RefCell<Rec>>) {
+	let tip = w.nodes[1].best_block_info().1;
+	if chain.reorg_due_in(tip) == Some(0) {
+		do_reorg(w, chain, rec);
+	}
+}
+
+/// Connects one replacement block holding `txs` (in this order) on B's chain.
+fn regrow_block(w: &mut World, chain: &mut Chain, rec: &Rc<RefCell<Rec>>, txs: Vec<Transaction>, other_nonce: bool) -> u32 {
+	let h = w.nodes[1].best_block_info().1 + 1;
+	rec.borrow_mut().doing = format!("reorg_regrow: replacement block with {} txs at B height {}", txs.len(), h);
+	let mut so_far: Vec<Transaction> = Vec::new();
+	for t in txs.iter() {
+		// (commitment transactions carry a time-type locktime from 1987, which `final_at` does not model)
+		if t.compute_txid() != chain.commit_txid && !chain.mineable(t, h, &so_far) {
+			panic!("driver: replacement block at height {} cannot hold {}", h, t.compute_txid());
+		}
+		so_far.push(t.clone());
+	}
+	{
+		let node = &w.nodes[1];
+		let mut txdata: Vec<Transaction> = Vec::new();
+		if !txs.is_empty() {
+			// the same padding `mine_transactions` uses
+			for _ in 0..*node.network_chan_count.borrow() {
+				txdata.push(Transaction { version: Version(0), lock_time: LockTime::ZERO, input: Vec::new(), output: Vec::new() });
+			}
+		}
+		txdata.extend(txs.iter().cloned());
+		let mut block = create_dummy_block(node.best_block_hash(), h, txdata);
+		if other_nonce {
+			// the header does not commit to the transactions (all-zero merkle root): without this an
+			// empty replacement block on the fork point would BE the disconnected block
+			block.header.nonce = 0x5eed_0001;
+		}
+		connect_block(node, &block);
+	}
+	chain.mark_mined(&txs, h);
+	if txs.iter().any(|t| t.compute_txid() == chain.commit_txid) {
+		chain.reset_g();
+	}
+	after_block(w, chain, rec, "reorg_regrow", 1, &txs);
+	h
+}
+
+fn do_reorg(w: &mut World, chain: &mut Chain, rec: &Rc<RefCell<Rec>>) {
+	let mut r = chain.reorg.take().expect("a plan");
+	let (_, conf_h) = r.tracked.expect("a tracked transaction");
+	let tip = w.nodes[1].best_block_info().1;
+	r.started = true;
+	r.tip_before = tip;
+	// the fork point must be below the tip
+	r.fork_rel = r.fork_rel_drawn.min((tip - conf_h) as i32 - 1);
+	r.fork_h = (conf_h as i64 + r.fork_rel as i64) as u32;
+	let count = tip - r.fork_h;
+	let disc: Vec<(u32, Vec<Transaction>)> = {
+		let blocks = w.nodes[1].blocks.lock().unwrap();
+		blocks[blocks.len() - count as usize..]
+			.iter()
+			.map(|(b, h)| (*h, b.txdata.iter().filter(|t| !is_padding(t)).cloned().collect()))
+			.collect()
+	};
+	assert_eq!(disc[0].0, r.fork_h + 1, "driver: block heights");
+	r.disc_heights = disc.iter().map(|(h, _)| *h).collect();
+	r.disc_txids = disc.iter().flat_map(|(_, v)| v.iter().map(|t| t.compute_txid().to_string())).collect();
+	let style_before = *w.nodes[1].connect_style.borrow();
+	let dstyle = match r.api {
+		"listen_each" => ConnectStyle::FullBlockViaListen,
+		"listen_once" => ConnectStyle::FullBlockDisconnectionsSkippingViaListen,
+		"confirm_best_block" => ConnectStyle::BestBlockFirst,
+		_ => ConnectStyle::TransactionsFirstReorgsOnlyTip,
+	};
+	// see the header comment on `regrow_style`
+	let regrow_style = if r.api == "confirm_unconfirmed"
+		&& !matches!(
+			style_before,
+			ConnectStyle::BestBlockFirst | ConnectStyle::BestBlockFirstSkippingBlocks | ConnectStyle::BestBlockFirstReorgsOnlyTip
+		) {
+		ConnectStyle::BestBlockFirst
+	} else {
+		style_before
+	};
+	r.style_before = format!("{:?}", style_before);
+	r.disconnect_style = format!("{:?}", dstyle);
+	r.regrow_style = format!("{:?}", regrow_style);
+	// "shifted": one block later, two if the revoked commitment would land on the expiry of an HTLC B offered
+	let commit_disc = disc.iter().find(|(_, v)| v.iter().any(|t| t.compute_txid() == chain.commit_txid)).map(|(h, _)| *h);
+	r.shift = 1;
+	if let Some(ch) = commit_disc {
+		if chain.steer && chain.htlcs.iter().any(|(offered, cltv, _)| !*offered && *cltv == ch + 1) {
+			r.shift = 2;
+		}
+	}
+	{
+		let mut rr = rec.borrow_mut();
+		rr.reorg_json = Some(r.json());
+		rr.doing = format!("reorg_disconnect: {} blocks from B height {} via {:?}", count, tip, dstyle);
+	}
+	*w.nodes[1].connect_style.borrow_mut() = dstyle;
+	disconnect_blocks(&w.nodes[1], count);
+	*w.nodes[1].connect_style.borrow_mut() = regrow_style;
+
+	let all: Vec<Transaction> = disc.iter().flat_map(|(_, v)| v.iter().cloned()).collect();
+	chain.unmine(&all);
+	if r.regrow == "empty_then_driver" {
+		// A's second-stage transactions are A's to confirm again, in their old order
+		let back: Vec<Transaction> = chain
+			.a_all
+			.iter()
+			.filter(|t| {
+				let id = t.compute_txid();
+				all.iter().any(|d| d.compute_txid() == id) && !chain.a_remaining.iter().any(|x| x.compute_txid() == id)
+			})
+			.cloned()
+			.collect();
+		chain.a_remaining.extend(back);
+	}
+	after_block(w, chain, rec, "reorg_disconnect", count, &[]);
+
+	let mut first = true;
+	match r.regrow {
+		"same_txs_same_heights" => {
+			for (_, txs) in disc.iter() {
+				let h = regrow_block(w, chain, rec, txs.clone(), first);
+				first = false;
+				r.repl_heights.push(h);
+			}
+			let h = regrow_block(w, chain, rec, Vec::new(), false);
+			r.repl_heights.push(h);
+		},
+		"shifted" => {
+			for _ in 0..r.shift {
+				let h = regrow_block(w, chain, rec, Vec::new(), first);
+				first = false;
+				r.repl_heights.push(h);
+			}
+			for (_, txs) in disc.iter() {
+				let h = regrow_block(w, chain, rec, txs.clone(), false);
+				r.repl_heights.push(h);
+			}
+		},
+		_ => {
+			let commit: Vec<Transaction> = all.iter().filter(|t| t.compute_txid() == chain.commit_txid).cloned().collect();
+			let h = regrow_block(w, chain, rec, commit, true);
+			r.repl_heights.push(h);
+			while w.nodes[1].best_block_info().1 < tip + 1 {
+				let h = regrow_block(w, chain, rec, Vec::new(), false);
+				r.repl_heights.push(h);
+			}
+		},
+	}
+	*w.nodes[1].connect_style.borrow_mut() = style_before;
+	chain.rebuild_b_pending();
+	r.done = true;
+	{
+		let mut rr = rec.borrow_mut();
+		rr.reorg_json = Some(r.json());
+		rr.reorg_done = Some((r.target.to_string(), r.api.to_string(), r.fork_rel, r.regrow.to_string()));
+	}
+	chain.reorg = Some(r);
 }
 
 // ------------------------------------------------------------------------------------------
@@ -1452,6 +1919,54 @@ fn build_agg(
 	}
 	meta.txid = tx.compute_txid();
 	(tx, meta)
+}
+
+/// The no-reorg twin: B's monitor as serialized at height `snap_h` is re-read and shown `blocks` (B's
+/// final chain) above that height, whole blocks in order. Returns the JSON and the outpoints of all
+/// spendable outputs it reported.
+fn run_twin(w: &World, bytes: &[u8], snap_h: u32, blocks: &[(bitcoin::Block, u32)], rec: &Rc<RefCell<Rec>>) -> (String, Vec<String>) {
+	rec.borrow_mut().doing = "twin: re-reading B's monitor".to_string();
+	let km = w.nodes[1].keys_manager;
+	let (_, m) = <(BlockLocator, ChannelMonitor<TestChannelSigner>)>::read(&mut &bytes[..], (km, km)).expect("B's monitor snapshot");
+	let from = m.current_best_block().height;
+	if from != snap_h {
+		panic!("driver: B's monitor was at height {} when B's chain was at {}", from, snap_h);
+	}
+	let mut spendable: Vec<String> = Vec::new();
+	let mut tip = from;
+	for (b, h) in blocks.iter() {
+		if *h <= from {
+			continue;
+		}
+		rec.borrow_mut().doing = format!("twin: block at height {} ({} txs)", h, b.txdata.len());
+		let txdata: Vec<(usize, &Transaction)> = b.txdata.iter().enumerate().collect();
+		let _ = m.block_connected(&b.header, &txdata, *h, &NullBroadcaster, w.nodes[1].fee_estimator, &w.nodes[1].logger);
+		let got: RefCell<Vec<Event>> = RefCell::new(Vec::new());
+		let handler = |ev: Event| -> Result<(), lightning::events::ReplayEvent> {
+			got.borrow_mut().push(ev);
+			Ok(())
+		};
+		let _ = m.process_pending_events(&&handler, &w.nodes[1].logger);
+		let mut here: Vec<String> = Vec::new();
+		for ev in got.into_inner() {
+			if let Event::SpendableOutputs { outputs, .. } = ev {
+				for o in outputs.iter() {
+					here.push(spendable_json(o, *h));
+				}
+			}
+		}
+		here.sort();
+		spendable.extend(here);
+		tip = *h;
+	}
+	rec.borrow_mut().doing = "twin: balances".to_string();
+	let mut balances: Vec<String> = m.get_claimable_balances().iter().map(|b| format!("{:?}", b)).collect();
+	balances.sort();
+	let ops: Vec<String> = spendable.iter().filter_map(|s| json_str(s, "outpoint")).collect();
+	(
+		format!("{{\"from\":{},\"tip\":{},\"spendable\":{},\"balances\":{}}}", from, tip, jarr(&spendable), jstrs(&balances)),
+		ops,
+	)
 }
 
 /// Best guess at what a commitment output is, plus whether it pays the broadcaster (A).
@@ -1719,6 +2234,51 @@ fn run_scenario(seed: u64, k: u64, flags: &Flags, rec: &Rc<RefCell<Rec>>) {
 	let reload_draw = rng.below(2) == 0;
 	let style_draw = rng.below(11);
 	let single_draw = rng.below(2) == 0;
+	// the reorg plan: always six draws, so that everything after them is the same with and without a plan
+	let mut reorg_plan: Option<Reorg> = None;
+	if flags.reorg {
+		let on = rng.below(3) != 0;
+		let target = match rng.below(7) {
+			0 => "commitment",
+			1..=3 => "justice",
+			4 => "cheater_htlc",
+			_ => "second_stage_justice",
+		};
+		let k = rng.below(6) as u32;
+		let fork_rel_drawn = rng.below(3) as i32 - 1;
+		let api = match rng.below(10) {
+			0..=2 => "listen_each",
+			3..=5 => "listen_once",
+			6 | 7 => "confirm_best_block",
+			_ => "confirm_unconfirmed",
+		};
+		let regrow = ["same_txs_same_heights", "shifted", "empty_then_driver"][rng.below(3) as usize];
+		if on {
+			// without second-stage transactions of A there is nothing of that kind to wait for
+			let eff = if s_txs.is_empty() && (target == "cheater_htlc" || target == "second_stage_justice") { "justice" } else { target };
+			reorg_plan = Some(Reorg {
+				target: eff,
+				target_drawn: target,
+				k,
+				fork_rel_drawn,
+				api,
+				regrow,
+				tracked: None,
+				started: false,
+				done: false,
+				fork_rel: 0,
+				tip_before: 0,
+				fork_h: 0,
+				shift: 0,
+				disc_heights: Vec::new(),
+				disc_txids: Vec::new(),
+				repl_heights: Vec::new(),
+				style_before: String::new(),
+				disconnect_style: String::new(),
+				regrow_style: String::new(),
+			});
+		}
+	}
 	let timing = if s_txs.is_empty() {
 		"none"
 	} else if chan_type == "anchors" {
@@ -1798,7 +2358,15 @@ fn run_scenario(seed: u64, k: u64, flags: &Flags, rec: &Rc<RefCell<Rec>>) {
 		steer: !flags.rtquirk,
 		held_back: Vec::new(),
 		claims: HashMap::new(),
+		claims_retired: Vec::new(),
+		unmined: HashSet::new(),
+		b_all: Vec::new(),
+		a_all: s_txs.clone(),
+		htlcs: cheated_htlcs.clone(),
+		pinnable: 0,
+		reorg: reorg_plan,
 	};
+	rec.borrow_mut().reorg_json = chain.reorg.as_ref().map(|r| r.json());
 	// the funding transaction confirmed long ago
 	chain.conf.insert(funding_tx.compute_txid(), 1);
 	if let Some(t) = reserve_tx.as_ref() {
@@ -1850,25 +2418,16 @@ fn run_scenario(seed: u64, k: u64, flags: &Flags, rec: &Rc<RefCell<Rec>>) {
 		.find(|(k, _)| *k == "COUNTERPARTY_CLAIMABLE_WITHIN_BLOCKS_PINNABLE")
 		.map(|(_, v)| v as u32)
 		.unwrap_or(12);
+	chain.pinnable = pinnable;
 	if !flags.rtquirk {
 		let bad: Vec<u32> = cheated_htlcs.iter().filter(|(offered, _, _)| !*offered).map(|(_, c, _)| *c).collect();
 		while bad.contains(&(w.nodes[1].best_block_info().1 + 1)) {
 			empty_blocks(&mut w, &mut chain, rec, "skip", 1);
 		}
 		let h1 = w.nodes[1].best_block_info().1 + 1;
-		let mut g: Vec<(u32, bool)> = cheated_htlcs
-			.iter()
-			.filter(|(offered, cltv, _)| !*offered || *cltv <= h1 + pinnable)
-			.map(|(offered, _, vout)| (*vout, *offered))
-			.collect();
-		g.sort();
-		if g.iter().any(|(_, o)| *o) && g.iter().any(|(_, o)| !*o) {
-			chain.g_cluster_offered = g[0].1;
-			let mut rest: Vec<(u32, bool)> = g[1..].to_vec();
-			rest.reverse();
-			chain.g_inputs = vec![g[0]];
-			chain.g_inputs.extend(rest);
-		}
+		let (g, cluster) = chain.g_for(h1);
+		chain.g_inputs = g;
+		chain.g_cluster_offered = cluster;
 	}
 
 	// block 1: the revoked commitment (+ A's second-stage transactions, in a random order)
@@ -1884,6 +2443,12 @@ fn run_scenario(seed: u64, k: u64, flags: &Flags, rec: &Rc<RefCell<Rec>>) {
 		r.s_early += (block.len() - 1) as u64;
 		r.s_same_block = (block.len() - 1) as u64;
 	}
+	// the no-reorg twin starts from B's monitor as it is now
+	let twin_snap: Option<(Vec<u8>, u32)> = if flags.reorg {
+		Some((w.nodes[1].chain_monitor.chain_monitor.get_monitor(w.chan_id).unwrap().encode(), w.nodes[1].best_block_info().1))
+	} else {
+		None
+	};
 	mine(&mut w, &mut chain, rec, "cheat", block);
 	if timing == "next_block" || timing == "later" {
 		if timing == "later" {
@@ -1944,66 +2509,104 @@ fn run_scenario(seed: u64, k: u64, flags: &Flags, rec: &Rc<RefCell<Rec>>) {
 	}
 
 	// ---------------- drive to the end ----------------
-	let mut finished = false;
-	for _round in 0..60 {
-		if rng.below(3) == 0 {
-			// mostly 1-3 blocks; now and then a long stall, so that the slow (15 block) bump timer of the
-			// claim on A's balance output fires as well
-			let n = if rng.below(5) == 0 { 10 + rng.below(11) as u32 } else { 1 + rng.below(3) as u32 };
-			if rng.below(4) == 0 {
-				rec.borrow_mut().doing = "rebroadcast_pending_claims".to_string();
-				w.nodes[1].chain_monitor.chain_monitor.rebroadcast_pending_claims();
-			}
-			empty_blocks(&mut w, &mut chain, rec, "idle", n);
-		}
-		if flags.reload && rng.below(8) == 0 {
-			rec.borrow_mut().doing = "reload between blocks".to_string();
-			if let Err(e) = w.reload_b() {
-				panic!("reload of B failed: {}", e);
-			}
-			let mut r = rec.borrow_mut();
-			r.reloaded = true;
-			r.reloads += 1;
-		}
-		let h = w.nodes[1].best_block_info().1 + 1;
-		let a_cands: Vec<Transaction> = {
-			let rem = chain.a_remaining.clone();
-			let mut ok = Vec::new();
-			for t in rem.iter() {
-				// each candidate on its own
-				let mut one = Vec::new();
-				if chain.take_a(std::slice::from_ref(t), h, &mut one) == 1 {
-					ok.push(t.clone());
+	// (a reorg that starts during the burial sends the driver through both phases once more)
+	let mut passes = 0;
+	loop {
+		passes += 1;
+		let mut finished = false;
+		for _round in 0..60 {
+			if rng.below(3) == 0 {
+				// mostly 1-3 blocks; now and then a long stall, so that the slow (15 block) bump timer of the
+				// claim on A's balance output fires as well
+				let n = if rng.below(5) == 0 { 10 + rng.below(11) as u32 } else { 1 + rng.below(3) as u32 };
+				if rng.below(4) == 0 {
+					rec.borrow_mut().doing = "rebroadcast_pending_claims".to_string();
+					w.nodes[1].chain_monitor.chain_monitor.rebroadcast_pending_claims();
 				}
+				empty_blocks(&mut w, &mut chain, rec, "idle", n);
 			}
-			ok
-		};
-		let a_turn = flags.late && !a_cands.is_empty() && rng.below(4) == 0;
-		let block = if a_turn {
-			rec.borrow_mut().s_race_won += 1;
-			vec![a_cands[rng.below(a_cands.len() as u64) as usize].clone()]
-		} else {
-			chain.select_b(h)
-		};
-		if block.is_empty() {
-			if chain.b_pending.is_empty() {
-				finished = true;
+			if flags.reload && rng.below(8) == 0 {
+				rec.borrow_mut().doing = "reload between blocks".to_string();
+				if let Err(e) = w.reload_b() {
+					panic!("reload of B failed: {}", e);
+				}
+				let mut r = rec.borrow_mut();
+				r.reloaded = true;
+				r.reloads += 1;
+			}
+			let h = w.nodes[1].best_block_info().1 + 1;
+			let a_cands: Vec<Transaction> = {
+				let rem = chain.a_remaining.clone();
+				let mut ok = Vec::new();
+				for t in rem.iter() {
+					// each candidate on its own
+					let mut one = Vec::new();
+					if chain.take_a(std::slice::from_ref(t), h, &mut one) == 1 {
+						ok.push(t.clone());
+					}
+				}
+				ok
+			};
+			let a_turn = flags.late && !a_cands.is_empty() && rng.below(4) == 0;
+			let block = if a_turn {
+				rec.borrow_mut().s_race_won += 1;
+				vec![a_cands[rng.below(a_cands.len() as u64) as usize].clone()]
+			} else {
+				chain.select_b(h)
+			};
+			if block.is_empty() {
+				if chain.b_pending.is_empty() {
+					finished = true;
+					break;
+				}
+				empty_blocks(&mut w, &mut chain, rec, "wait", 1);
+				continue;
+			}
+			mine(&mut w, &mut chain, rec, if a_turn { "a_wins" } else { "drive" }, block);
+		}
+		rec.borrow_mut().exhausted = !finished;
+
+		// ---------------- burial ----------------
+		let started_before = chain.reorg.as_ref().map(|r| r.started).unwrap_or(false);
+		for _ in 0..20 {
+			empty_blocks(&mut w, &mut chain, rec, "final", 10);
+			let h = w.nodes[1].best_block_info().1 + 1;
+			let block = chain.select_b(h);
+			if !block.is_empty() {
+				mine(&mut w, &mut chain, rec, "final_mine", block);
+			}
+		}
+
+		let started_now = chain.reorg.as_ref().map(|r| r.started).unwrap_or(false);
+		if passes == 2 || started_before || !started_now {
+			break;
+		}
+	}
+	if flags.reorg {
+		// whatever is left of B's, then enough blocks on top of the last confirmation for everything to mature
+		for _ in 0..40 {
+			let tip = w.nodes[1].best_block_info().1;
+			let block = chain.select_b(tip + 1);
+			if !block.is_empty() {
+				mine(&mut w, &mut chain, rec, "final_mine", block);
+				continue;
+			}
+			// (height 1 stands for the funding transaction and the wallet reserves)
+			let mut need = chain.conf.values().filter(|h| **h > 1).map(|h| *h + ANTI_REORG_DELAY + 1).max().unwrap_or(0);
+			let csv = w
+				.known
+				.iter()
+				.filter(|(id, _)| chain.conf.contains_key(*id))
+				.flat_map(|(_, t)| t.input.iter().map(move |i| (t.version.0, i.sequence.0)))
+				.filter(|(v, s)| *v >= 2 && s & (1 << 31) == 0 && s & (1 << 22) == 0)
+				.map(|(_, s)| s & 0xffff)
+				.max()
+				.unwrap_or(0);
+			need += csv;
+			if tip >= need {
 				break;
 			}
-			empty_blocks(&mut w, &mut chain, rec, "wait", 1);
-			continue;
-		}
-		mine(&mut w, &mut chain, rec, if a_turn { "a_wins" } else { "drive" }, block);
-	}
-	rec.borrow_mut().exhausted = !finished;
-
-	// ---------------- burial ----------------
-	for _ in 0..20 {
-		empty_blocks(&mut w, &mut chain, rec, "final", 10);
-		let h = w.nodes[1].best_block_info().1 + 1;
-		let block = chain.select_b(h);
-		if !block.is_empty() {
-			mine(&mut w, &mut chain, rec, "final_mine", block);
+			empty_blocks(&mut w, &mut chain, rec, "final", need - tip);
 		}
 	}
 
@@ -2076,8 +2679,38 @@ fn run_scenario(seed: u64, k: u64, flags: &Flags, rec: &Rc<RefCell<Rec>>) {
 		s_json.push(tx_facts(t, &w.known, &extra).json);
 	}
 	let mut claim_stats: Vec<(u64, u64, u64)> = chain.claims.values().map(|c| (c.1, c.2, c.3)).collect();
+	claim_stats.extend(chain.claims_retired.iter().cloned());
 	claim_stats.sort();
 	let fb = balances_b(&w);
+	if let Some((bytes, snap_h)) = twin_snap.as_ref() {
+		// B's final chain from the revoked commitment's first confirmation attempt on
+		let s_ids: HashSet<Txid> = s_txs.iter().map(|t| t.compute_txid()).collect();
+		let blocks = w.nodes[1].blocks.lock().unwrap().clone();
+		let mut confirmed = Vec::new();
+		for (b, h) in blocks.iter() {
+			if *h < h1 {
+				continue;
+			}
+			for t in b.txdata.iter().filter(|t| !is_padding(t)) {
+				let txid = t.compute_txid();
+				let mine = if txid == commit_txid || s_ids.contains(&txid) {
+					"A"
+				} else if chain.b_seen.contains(&txid) {
+					"B"
+				} else {
+					"other"
+				};
+				confirmed.push(format!("{{\"txid\":\"{}\",\"height\":{},\"mine\":\"{}\"}}", txid, h, mine));
+			}
+		}
+		let tip = blocks.last().map(|(_, h)| *h).unwrap_or(0);
+		rec.borrow_mut().final_chain = Some(format!("{{\"tip\":{},\"confirmed\":{}}}", tip, jarr(&confirmed)));
+		let (json, ops) = run_twin(&w, bytes, *snap_h, &blocks, rec);
+		let mut r = rec.borrow_mut();
+		r.twin = Some(json);
+		r.twin_outpoints = Some(ops);
+		r.doing = "summary".to_string();
+	}
 	let mut r = rec.borrow_mut();
 	r.held_back = chain.held_back.clone();
 	r.unspent = unspent;
@@ -2138,6 +2771,15 @@ struct Stats {
 	owed_unspent: u64,
 	drained: u64,
 	not_drained: u64,
+	reorg_planned: u64,
+	reorg_done: u64,
+	reorg_target: BTreeMap<String, u64>,
+	reorg_api: BTreeMap<String, u64>,
+	reorg_fork_rel: BTreeMap<String, u64>,
+	reorg_regrow: BTreeMap<String, u64>,
+	twins: u64,
+	twin_mismatch: u64,
+	spendable_dup: u64,
 }
 
 fn bucket(x: u64) -> u64 {
@@ -2178,7 +2820,7 @@ fn run_one(seed: u64, k: u64, flags: &Flags, stats: &mut Stats) {
 	};
 	let r = rec;
 	println!(
-		"R {{\"k\":{},\"seed\":{},\"flags\":{},\"panic\":{},\"chan_type\":{},\"style\":{},\"reloaded\":{},\"reloads\":{},\"aged\":{},\"exhausted\":{},\"updates\":{},\"captures\":{},\"mon_commitments\":{},\"cheat\":{},\"S_txs\":{},\"S_held_back\":{},\"fee_trajectory\":{},\"fee_delay\":{},\"conf_target\":\"UrgentOnChainSweep\",\"conf_target_feerates\":{},\"fee_violations\":{{\"not_monotone\":{},\"below_estimate\":{},\"notes\":{}}},\"funding\":{},\"blocks\":{},\"spendable\":{},\"unspent\":{},\"owed_unspent\":{},\"final_balances\":{}}}",
+		"R {{\"k\":{},\"seed\":{},\"flags\":{},\"panic\":{},\"chan_type\":{},\"style\":{},\"reloaded\":{},\"reloads\":{},\"aged\":{},\"exhausted\":{},\"updates\":{},\"captures\":{},\"mon_commitments\":{},\"cheat\":{},\"S_txs\":{},\"S_held_back\":{},\"fee_trajectory\":{},\"fee_delay\":{},\"conf_target\":\"UrgentOnChainSweep\",\"conf_target_feerates\":{},\"fee_violations\":{{\"not_monotone\":{},\"below_estimate\":{},\"notes\":{}}},\"funding\":{},\"blocks\":{},\"spendable\":{},\"unspent\":{},\"owed_unspent\":{},\"final_balances\":{},\"reorg\":{},\"final_chain\":{},\"twin\":{}}}",
 		k,
 		seed,
 		js(&flags.raw),
@@ -2209,9 +2851,54 @@ fn run_one(seed: u64, k: u64, flags: &Flags, stats: &mut Stats) {
 		match &r.final_balances {
 			Some(v) => jstrs(v),
 			None => "null".to_string(),
-		}
+		},
+		r.reorg_json.clone().unwrap_or_else(|| "null".to_string()),
+		r.final_chain.clone().unwrap_or_else(|| "null".to_string()),
+		r.twin.clone().unwrap_or_else(|| "null".to_string())
 	);
 	stats.scenarios += 1;
+	if r.reorg_json.is_some() {
+		stats.reorg_planned += 1;
+	}
+	if let Some((target, api, fork_rel, regrow)) = r.reorg_done.as_ref() {
+		stats.reorg_done += 1;
+		*stats.reorg_target.entry(target.clone()).or_insert(0) += 1;
+		*stats.reorg_api.entry(api.clone()).or_insert(0) += 1;
+		*stats.reorg_fork_rel.entry(format!("{:+}", fork_rel)).or_insert(0) += 1;
+		*stats.reorg_regrow.entry(regrow.clone()).or_insert(0) += 1;
+	}
+	{
+		let mut live: Vec<String> = r.spendable.iter().filter_map(|s| json_str(s, "outpoint")).collect();
+		live.sort();
+		let dup = live.windows(2).any(|p| p[0] == p[1]);
+		let mut mismatch = false;
+		if let Some(t) = r.twin_outpoints.as_ref() {
+			stats.twins += 1;
+			let mut t = t.clone();
+			t.sort();
+			mismatch = t != live;
+		}
+		stats.twin_mismatch += mismatch as u64;
+		stats.spendable_dup += dup as u64;
+		if mismatch || dup {
+			eprintln!(
+				"h_justice: ANOMALY replay={{\"seed\":{},\"k\":{},\"flags\":\"{}\"}} chan_type={} style={} twin_mismatch={} spendable_dup={} live_spendable={} twin_spendable={} reorg={}",
+				seed,
+				k,
+				flags.raw,
+				r.chan_type,
+				r.style,
+				mismatch,
+				dup,
+				live.len(),
+				r.twin_outpoints.as_ref().map(|t| t.len() as i64).unwrap_or(-1),
+				match r.reorg_done.as_ref() {
+					Some((target, api, fork_rel, regrow)) => format!("{}/{}/{:+}/{}", target, api, fork_rel, regrow),
+					None => "none".to_string(),
+				}
+			);
+		}
+	}
 	stats.panics += panic_msg.is_some() as u64;
 	if let Some(m) = &panic_msg {
 		eprintln!("h_justice: PANIC replay={{\"seed\":{},\"k\":{},\"flags\":\"{}\"}} {}", seed, k, flags.raw, m);
@@ -2367,6 +3054,15 @@ fn print_stats(st: &Stats) {
 	eprintln!(
 		"h_justice: final balances empty and SpendableOutputs emitted={} otherwise={}",
 		st.drained, st.not_drained
+	);
+	eprintln!("h_justice: reorgs: planned={} done={}", st.reorg_planned, st.reorg_done);
+	print_hist("done reorgs by target", &st.reorg_target);
+	print_hist("done reorgs by api", &st.reorg_api);
+	print_hist("done reorgs by fork_rel", &st.reorg_fork_rel);
+	print_hist("done reorgs by regrow", &st.reorg_regrow);
+	eprintln!(
+		"h_justice: no-reorg twins run={} twin_mismatch={} spendable_dup={} (scenarios; both must be 0)",
+		st.twins, st.twin_mismatch, st.spendable_dup
 	);
 }
 
